@@ -8,6 +8,7 @@ package schedulerplugin
 import (
 	corev1 "k8s.io/api/core/v1"
 	"tkestack.io/galaxy/pkg/ipam/cloudprovider"
+	"tkestack.io/galaxy/pkg/ipam/floatingip"
 )
 
 // VerifPluginResync runs one resync pass (resyncPod).  The checklist comes out of a Go map in arbitrary order; if
@@ -96,3 +97,7 @@ func (p *FloatingIPPlugin) VerifPluginFetchChecklist() ([]VerifResyncEntry, erro
 func (p *FloatingIPPlugin) VerifPluginResyncOne(e VerifResyncEntry) {
 	p.resyncAllocatedIPs(&resyncMeta{allocatedIPs: []resyncObj{e}})
 }
+
+// VerifPluginWrapIPAM replaces the plugin's IPAM by wrap(current IPAM): the lock-exclusion probe of the harness records
+// (and can park) every IPAM access this way.
+func (p *FloatingIPPlugin) VerifPluginWrapIPAM(wrap func(floatingip.IPAM) floatingip.IPAM) { p.ipam = wrap(p.ipam) }
